@@ -478,6 +478,18 @@ def rule_g(repo, chk):
     # id passed on delete is the same field
     for c_ in dc:
         chk.ob('C14.g', c_.args and _is_self_attr(c_.args[0], '_inference_state_id'), c_, 'the deletion names this state\'s own id')
+    # per-helper state really is per helper: nothing mutable is shared at class level
+    for cname in ('CompiledSubprocess', 'InferenceStateSubprocess', '_InferenceStateProcess', 'Listener'):
+        ci = repo.cls(SUB, cname)
+        shared = sorted(a for a, st in ci.attrs.items() if isinstance(getattr(st, 'value', None), (ast.List, ast.Dict, ast.Set, ast.Call, ast.Lambda,
+                                                                                                  ast.ListComp, ast.DictComp)))
+        chk.ob('C14.g', not shared, ci.node, '%s keeps no mutable/callable state at class level (a replacement helper starts clean)' % cname,
+               'class-level: %s' % shared)
+    cinit = repo.find(SUB, 'CompiledSubprocess.__init__')
+    for attr, ctor in (('_inference_state_deletion_queue', ('deque', 'list', 'Queue')), ('_cleanup_callable', None)):
+        st = attr_stores(cinit, attr)
+        ok = bool(st) and all((isinstance(x.value, ast.Call) and call_name(x.value) in ctor) if ctor else isinstance(x.value, ast.Lambda) for x in st)
+        chk.ob('C14.g', ok, cinit, 'CompiledSubprocess.__init__ creates a fresh %s per helper' % attr, str([short(x) for x in st]))
     # _used starts False
     init = repo.find(SUB, 'InferenceStateSubprocess.__init__')
     st = attr_stores(init, '_used')
